@@ -72,42 +72,25 @@ def run(ctx):
                 if chars is None or pos is None or (pe is None and ln is None):
                     ctx.unknown('R01a', mod, c, 'chars/pos/pos_end not all given by keyword', construct=cons)
                     continue
-                try:
-                    if pe is not None:
-                        width = affine.diff(pe, pos, env)
-                    else:
-                        width = affine.norm(ln, env)
-                    cl = affine.norm_len(chars, env)
-                except affine.NotAffine as e:
-                    ctx.unknown('R01a', mod, c, 'not affine: %s' % e, construct=cons)
-                    continue
-                d = (width[0] - cl[0], {k: width[1].get(k, 0) - cl[1].get(k, 0)
-                                        for k in set(width[1]) | set(cl[1])})
-                d = (d[0], {k: v for k, v in d[1].items() if v != 0})
-                if d == (0, {}):
-                    ctx.holds('R01a', mod, c, 'span %s == len(chars)' % affine.show(width),
-                              construct=cons, trivial=(affine.show(width) == '0'))
-                    continue
-                # token span lemma: a 'char' token satisfies pos_end - pos == len(arg)
-                lemma = _token_lemma(c, chars, pos, pe, d, mod)
-                if lemma:
-                    ctx.holds('R01a', mod, c, lemma, construct=cons)
-                elif not d[1]:
-                    ctx.refuted('R01a', mod, c, 'span and text length differ by the constant %d: the '
-                                                'chars node does not equal the source slice at its '
-                                                'position' % d[0], construct=cons)
-                elif d[1] and all(k.startswith('len(') for k in d[1]) and \
-                        (all(v > 0 for v in d[1].values()) and d[0] >= 0 or
-                         all(v < 0 for v in d[1].values()) and d[0] <= 0) and \
-                        any(pol and ('len(%s)' % unparse(t)) in d[1] for t, pol in atomic_facts(c)):
-                    ctx.refuted('R01a', mod, c, 'span - len(chars) = %s, and the site is guarded by '
-                                                'that string being non-empty: the node\'s span never '
-                                                'matches its text' % affine.show(d), construct=cons)
-                elif _known_opaque(f, chars):
-                    ctx.holds('R01a', mod, c, _known_opaque(f, chars), construct=cons)
-                else:
-                    ctx.unknown('R01a', mod, c, 'span - len(chars) = %s not decided' % affine.show(d),
-                                construct=cons)
+                # a private helper that only wraps the constructor (text, position and length are its
+                # parameters): decided at each call site with the arguments substituted
+                fparams = [a_.arg for a_ in f.args.args] if isinstance(f, ast.FunctionDef) else []
+                used = {n_.id for e_ in (chars, pos, pe, ln) if e_ is not None for n_ in ast.walk(e_)
+                        if isinstance(n_, ast.Name)}
+                if f.name.startswith('_') and used and used <= set(fparams) and not affine.reaching_env(f, c):
+                    pl = fparams[1:] if fparams and fparams[0] == 'self' else fparams
+                    sites = [(g, c2) for g in mod.functions.values() if g is not f for c2 in iter_own(g)
+                             if isinstance(c2, ast.Call) and call_name(c2) == f.name]
+                    if sites and all(len(c2.args) + len(c2.keywords) >= len(used) for g, c2 in sites):
+                        for g, c2 in sites:
+                            ren = dict(zip(pl, c2.args))
+                            ren.update((k_.arg, k_.value) for k_ in c2.keywords if k_.arg)
+                            sub_ = lambda e_: symex.subst(e_, ren) if e_ is not None else None
+                            _r01a_site(ctx, mod, g, c2, sub_(chars), sub_(pos), sub_(pe), sub_(ln),
+                                       '%s via %s: chars=%s pos=%s' % (g._qualname, f.name, short(sub_(chars), 40),
+                                                                       short(sub_(pos), 30)))
+                        continue
+                _r01a_site(ctx, mod, f, c, chars, pos, pe, ln, cons)
     ctx.analysed['chars_node_sites'] = n_sites
 
     # ------------------------------------------------------------ R01b (shared with C11 R11e)
@@ -443,6 +426,47 @@ def run(ctx):
                construct='flush_pending_chars')
     ctx.assume('the spans produced by different cooperating parsers tile the input (who owns the '
                'whitespace between two constructs) is a run-time relation and is not decided')
+    # ---- R01n: a token given back to the reader keeps its leading whitespace unless the function
+    # giving it back turns that whitespace into content itself
+    ctx.rule('R01n', 'move_to_token(tok, rewind_pre_space=False) appears only in a function that itself reads '
+                     'tok.pre_space (turns the whitespace into a node or pending characters); everywhere else a '
+                     'token is put back together with its leading whitespace, so that the whitespace is not '
+                     'attributed to the construct parsed before it', 6)
+    n_mv = 0
+    for mod_ in sorted(repo.modules.values(), key=lambda m_: m_.name):
+        for q_, f_ in sorted(mod_.functions.items()):
+            for c_ in iter_own(f_):
+                if not (isinstance(c_, ast.Call) and call_name(c_) == 'move_to_token' and c_.args):
+                    continue
+                rw = kwarg(c_, 'rewind_pre_space') or (c_.args[1] if len(c_.args) > 1 else None)
+                if rw is None or (isinstance(rw, ast.Constant) and rw.value is True):
+                    continue
+                n_mv += 1
+                tokname = unparse(c_.args[0])
+                reads = [a_ for a_ in ast.walk(f_) if isinstance(a_, ast.Attribute) and a_.attr == 'pre_space'
+                         and isinstance(a_.ctx, ast.Load) and unparse(a_.value) == tokname]
+                if not reads and tokname in [a_.arg for a_ in f_.args.args]:
+                    # the token is handed in by callers of the same module that did the accounting
+                    pi = [a_.arg for a_ in f_.args.args].index(tokname) - (1 if f_.args.args[0].arg == 'self' else 0)
+                    callers = []
+                    for q2, g_ in mod_.functions.items():
+                        for c2 in iter_own(g_):
+                            if isinstance(c2, ast.Call) and call_name(c2) == f_.name and g_ is not f_:
+                                a2 = c2.args[pi] if pi < len(c2.args) else kwarg(c2, tokname)
+                                callers.append(isinstance(a2, ast.Name) and any(
+                                    isinstance(x_, ast.Attribute) and x_.attr == 'pre_space' and
+                                    unparse(x_.value) == a2.id for x_ in ast.walk(g_)))
+                    if callers and all(callers):
+                        reads = [True]
+                ctx.decide('R01n', bool(reads), mod_, c_,
+                           '%s: %s.pre_space is used by the function that keeps it' % (q_, tokname),
+                           '%s puts the token %s back without its leading whitespace (rewind_pre_space=%s) but '
+                           'never reads %s.pre_space: the whitespace in front of the token stays consumed and is '
+                           'attributed to the preceding construct (a macro without arguments then covers the '
+                           'spaces after it, and a following no-space optional argument is accepted)'
+                           % (q_, tokname, unparse(rw), tokname),
+                           construct='%s: %s' % (q_, short(c_, 70)))
+
     return 'other', (
         'Span algebra at every construction site: for each chars node pos_end - pos - len(chars) '
         'normalises to 0 (affine normaliser with single-assignment inlining and the token-span '
@@ -790,3 +814,43 @@ def _whitespace_paths(ctx, mod, f):
                                               'dropped from the node tree' if st.consumed == 0
                                               else 'duplicated'), construct=cons)
     ctx.analysed['process_one_token_paths'] = n_ok + n_bad
+
+
+def _r01a_site(ctx, mod, f, c, chars, pos, pe, ln, cons):
+    env = affine.reaching_env(f, c)
+    try:
+        if pe is not None:
+            width = affine.diff(pe, pos, env)
+        else:
+            width = affine.norm(ln, env)
+        cl = affine.norm_len(chars, env)
+    except affine.NotAffine as e:
+        ctx.unknown('R01a', mod, c, 'not affine: %s' % e, construct=cons)
+        return
+    d = (width[0] - cl[0], {k: width[1].get(k, 0) - cl[1].get(k, 0)
+                            for k in set(width[1]) | set(cl[1])})
+    d = (d[0], {k: v for k, v in d[1].items() if v != 0})
+    if d == (0, {}):
+        ctx.holds('R01a', mod, c, 'span %s == len(chars)' % affine.show(width),
+                  construct=cons, trivial=(affine.show(width) == '0'))
+        return
+    # token span lemma: a 'char' token satisfies pos_end - pos == len(arg)
+    lemma = _token_lemma(c, chars, pos, pe, d, mod)
+    if lemma:
+        ctx.holds('R01a', mod, c, lemma, construct=cons)
+    elif not d[1]:
+        ctx.refuted('R01a', mod, c, 'span and text length differ by the constant %d: the '
+                                    'chars node does not equal the source slice at its '
+                                    'position' % d[0], construct=cons)
+    elif d[1] and all(k.startswith('len(') for k in d[1]) and \
+            (all(v > 0 for v in d[1].values()) and d[0] >= 0 or
+             all(v < 0 for v in d[1].values()) and d[0] <= 0) and \
+            any(pol and ('len(%s)' % unparse(t)) in d[1] for t, pol in atomic_facts(c)):
+        ctx.refuted('R01a', mod, c, 'span - len(chars) = %s, and the site is guarded by '
+                                    'that string being non-empty: the node\'s span never '
+                                    'matches its text' % affine.show(d), construct=cons)
+    elif _known_opaque(f, chars):
+        ctx.holds('R01a', mod, c, _known_opaque(f, chars), construct=cons)
+    else:
+        ctx.unknown('R01a', mod, c, 'span - len(chars) = %s not decided' % affine.show(d),
+                    construct=cons)
